@@ -54,7 +54,7 @@ def extract(ctx):
     _, (es, ee) = syn.body(r'void\s+visit_\(type_identity<AutoIncrement>[^{]*\{')
     others = [m_.group(0) for m_ in re.finditer(r'"[^"\n]*\bctr\b[^"\n]*"', syn.text) if m_.group(0) != '"ctr"' and not (es <= m_.start() < ee)]
     ctx.fact('Synthesiser.cpp: no string outside the AutoIncrement emitter mentions `ctr` (other than its declarations)', len(others) == 0)
-    text = ('#include <atomic>\n#include "ramtypes.hpp"\nnamespace souffle {\ntypedef %s interp_counter_t;\ntypedef %s synth_ctr_t;\n' % (ctype, fm.group(1)) +
+    text = ('#include <atomic>\n#include <cassert>\n#include "ramtypes.hpp"\n// souffle::fatal terminates the process: the path ends, no value is handed out\nextern "C" void vx_fatal(void);\n#define fatal(...) vx_fatal()\nnamespace souffle {\ntypedef %s interp_counter_t;\ntypedef %s synth_ctr_t;\n' % (ctype, fm.group(1)) +
             '// interpreter: body of Engine::incCounter, `counter` declared as in Engine.h\n'
             'RamDomain interp_incCounter(%s& counter) {%s}\n'
             '// synthesiser: the emitted expression, `ctr` declared as the emitted field\n'
